@@ -35,6 +35,8 @@ func (k SolverKind) String() string {
 
 type Solver struct {
 	recycledAt int // value of Queries when this process was started
+	sent       int // bytes written to this process
+	paths      int // paths run on this process
 	kind       SolverKind
 	cmd        *exec.Cmd
 	in         io.WriteCloser
@@ -98,6 +100,7 @@ func (s *Solver) send(txt string) {
 	if s.log != nil {
 		io.WriteString(s.log, txt)
 	}
+	s.sent += len(txt)
 	if _, err := io.WriteString(s.in, txt); err != nil {
 		panic(engineError{"solver pipe write: " + err.Error()})
 	}
